@@ -431,8 +431,8 @@ theorem used_method_fallback (d : Defaults) (iterm animated frame : Bool) (m : S
     point cannot carry — an override for `str()`, an invalid letter for a format spec — and an
     `ImageIterator` over a still image are excluded explicitly.) -/
 theorem used_is_effective (s : State) (i : Nat) (hi : i < s.ninst) (ov : PyVal) (e : Entry)
-    (hiter : e = .iter → s.ianim i = true)
-    (harg : ov = .none ∨ ((e = .static ∨ e = .draw ∨ e = .anim) ) ∨
+    (hiter : e.isIter = true → s.ianim i = true)
+    (harg : ov = .none ∨ ((e = .static ∨ e = .draw ∨ e = .anim ∨ e = .animc) ) ∨
       (∃ x ms, ov = .str x ∧ e ≠ .str ∧ methodsOf s (s.icls i) = some ms ∧ lower x ∈ ms ∧ x ≠ "")) :
     usedG implSem s i ov e =
       (match effMethod implSem s i ov with
@@ -440,30 +440,32 @@ theorem used_is_effective (s : State) (i : Nat) (hi : i < s.ninst) (ov : PyVal) 
        | .error err => .error err) := by
   unfold usedG
   have h1 : (!decide (i < s.ninst)) = false := by simp [hi]
-  have h2 : (e = .iter && !s.ianim i) = false := by
-    by_cases he : e = .iter
-    · simp [he, hiter he]
-    · simp [he]
+  have h2 : (e.isIter && !s.ianim i) = false := by
+    cases he : e.isIter
+    · rfl
+    · simp [hiter he]
   simp only [h1, Bool.false_eq_true, if_false]
   rw [if_neg (by simp [h2])]
   have hok : entryArgOk s i e ov = true := by
     rcases harg with rfl | he | ⟨x, ms, rfl, hne, hms, hx, hx'⟩
     · cases e <;> rfl
-    · rcases he with rfl | rfl | rfl <;> cases ov <;> rfl
+    · rcases he with rfl | rfl | rfl | rfl <;> cases ov <;> rfl
     · cases e with
       | str => exact absurd rfl hne
       | fmt => simp [entryArgOk, hms, hx, hx']
       | iter => simp [entryArgOk, hms, hx, hx']
+      | iterc => simp [entryArgOk, hms, hx, hx']
       | static => rfl
       | draw => rfl
       | anim => rfl
+      | animc => rfl
   simp only [hok, Bool.not_true, Bool.false_eq_true, if_false]
   cases effMethod implSem s i ov <;> rfl
 
 /-- hence, with `render_uses_effective`: without an override every entry point uses the instance's
     own value, else its class's reading (`instLookupWith clsLookup`), lower-cased, up to the fallback -/
 theorem used_is_effective_no_override (s : State) (i : Nat) (hi : i < s.ninst) (e : Entry)
-    (hiter : e = .iter → s.ianim i = true) (ms : List String)
+    (hiter : e.isIter = true → s.ianim i = true) (ms : List String)
     (hms : methodsOf s (s.icls i) = some ms) (hne : ms ≠ []) (x : String)
     (hx : instLookupWith clsLookup s .rm i = some (.str x)) :
     usedG implSem s i .none e =
@@ -473,7 +475,7 @@ theorem used_is_effective_no_override (s : State) (i : Nat) (hi : i < s.ninst) (
 /-- and with a valid override every entry point that can carry one uses the override (up to the
     fallback), whatever is set on any class or instance -/
 theorem used_is_override (s : State) (i : Nat) (hi : i < s.ninst) (e : Entry) (hstr : e ≠ .str)
-    (hiter : e = .iter → s.ianim i = true) (ms : List String)
+    (hiter : e.isIter = true → s.ianim i = true) (ms : List String)
     (hms : methodsOf s (s.icls i) = some ms) (x : String) (hx : lower x ∈ ms) (hx' : x ≠ "") :
     usedG implSem s i (.str x) e =
       .ok (usedMethod s.dft (s.info (s.icls i)).iterm (s.ianim i) (e.frame (s.ianim i)) (lower x)) := by
@@ -481,6 +483,92 @@ theorem used_is_override (s : State) (i : Nat) (hi : i < s.ninst) (e : Entry) (h
     intro h; rw [h] at hx; simp at hx
   rw [used_is_effective s i hi (.str x) e hiter (Or.inr (Or.inr ⟨x, ms, rfl, hstr, hms, hx, hx'⟩)),
     (render_uses_effective s i hi ms hms hne).2.1 x hx hx']
+
+/-! ## used_method_every_frame — cached loops and size changes -/
+
+/-- `ImageIterator._animate` with `cached=True`, FOR EVERY number of frames and loops and EVERY
+    pattern of size changes (`resized l n`: the rendered size differs from the one frame `n` was cached
+    at when it is due in loop `l`): every emitted frame — rendered in the first loop, taken from the
+    cache, or rendered anew because its cache entry was stale — is a `render ()`, i.e. a
+    `_render_image(…, frame=True, **style_args)` with the SAME per-call style arguments.  The method a
+    frame shows therefore does not depend on the cache state or the size history. -/
+theorem used_method_every_frame {α} (render : Unit → α) (nframes loops : Nat) (resized : Nat → Nat → Bool) :
+    (∀ x ∈ animate render nframes loops resized, x = render ()) ∧
+    (animate render nframes loops resized).length = nframes * loops := by
+  have loop1 : ∀ (res : Nat → Bool) (cache : List α) (n : Nat), (∀ c ∈ cache, c = render ()) →
+      (∀ x ∈ (cachedLoop render res n cache).1, x = render ()) ∧
+      (∀ x ∈ (cachedLoop render res n cache).2, x = render ()) ∧
+      (cachedLoop render res n cache).1.length = cache.length ∧
+      (cachedLoop render res n cache).2.length = cache.length := by
+    intro res cache
+    induction cache with
+    | nil => intro n _; simp [cachedLoop]
+    | cons c cs ih =>
+      intro n hc
+      have hcs := ih (n + 1) (fun x hx => hc x (by simp [hx]))
+      have hf : (if res n = true then render () else c) = render () := by
+        split
+        · rfl
+        · exact hc c (by simp)
+      simp only [cachedLoop, List.mem_cons, List.length_cons, hf]
+      refine ⟨?_, ?_, by rw [hcs.2.2.1], by rw [hcs.2.2.2]⟩
+      · rintro x (rfl | hx)
+        · rfl
+        · exact hcs.1 x hx
+      · rintro x (rfl | hx)
+        · rfl
+        · exact hcs.2.1 x hx
+  have loops' : ∀ (k l : Nat) (cache : List α), (∀ c ∈ cache, c = render ()) →
+      (∀ x ∈ cachedLoops render resized k l cache, x = render ()) ∧
+      (cachedLoops render resized k l cache).length = cache.length * k := by
+    intro k
+    induction k with
+    | zero => intro l cache _; simp [cachedLoops]
+    | succ k ih =>
+      intro l cache hc
+      have h1 := loop1 (resized l) cache 0 hc
+      have h2 := ih (l + 1) _ h1.2.1
+      simp only [cachedLoops, List.mem_append, List.length_append]
+      refine ⟨?_, ?_⟩
+      · rintro x (hx | hx)
+        · exact h1.1 x hx
+        · exact h2.1 x hx
+      · rw [h2.2, h1.2.2.1, h1.2.2.2, Nat.mul_succ, Nat.add_comm]
+  cases loops with
+  | zero => simp [animate]
+  | succ k =>
+    have hfirst : ∀ c ∈ (List.range nframes).map (fun _ => render ()), c = render () := by
+      intro c hc
+      obtain ⟨_, _, rfl⟩ := List.mem_map.mp hc
+      rfl
+    have h2 := loops' k 1 _ hfirst
+    simp only [animate, List.mem_append, List.length_append]
+    refine ⟨?_, ?_⟩
+    · rintro x (hx | hx)
+      · exact hfirst x hx
+      · exact h2.1 x hx
+    · rw [h2.2]
+      simp [Nat.mul_succ, Nat.add_comm]
+
+/-- hence what the cached multi-loop entry points (`iterc`, `animc`) report is exactly `usedG`: the
+    per-call override if given, else the instance's effective method (`used_is_effective`), in every
+    frame of every loop, before and after the resize -/
+theorem used_frames_is_used (s : State) (i : Nat) (ov : PyVal) (e : Entry) :
+    usedFramesG implSem s i ov e = usedG implSem s i ov e := by
+  unfold usedFramesG
+  cases hu : usedG implSem s i ov e with
+  | error err => rfl
+  | ok m =>
+    simp only []
+    split
+    · have hall := (used_method_every_frame (fun _ => (Except.ok m : Except Err String))
+        protoFrames protoLoops protoResized).1
+      rw [if_pos]
+      rw [List.all_eq_true]
+      intro x hx
+      rw [hall x hx]
+      simp
+    · rfl
 
 /-! ## global_shared -/
 
@@ -694,8 +782,8 @@ example :
 example :
     let s := (run init [.nc 3 none, .nc 6 none, .ni 7 true, .set (.slot .rm) (.cls 3) (.str "anim"),
       .set (.slot .rm) (.cls 6) (.str "lines")]).1
-    ([Entry.static, .str, .fmt, .draw, .anim, .iter].map fun e => okState (usedG implSem s 0 .none e)) =
-      [some "lines", some "lines", some "lines", some "lines", some "lines", some "lines"] ∧
+    ([Entry.static, .str, .fmt, .draw, .anim, .iter, .iterc, .animc].map fun e => okState (usedFramesG implSem s 0 .none e)) =
+      [some "lines", some "lines", some "lines", some "lines", some "lines", some "lines", some "lines", some "lines"] ∧
     ([Entry.static, .str, .fmt, .draw, .anim, .iter].map fun e => okState (usedG implSem demoI 0 .none e)) =
       [some "anim", some "anim", some "anim", some "anim", some "whole", some "whole"] ∧
     okState (usedG implSem demoI 0 (.str "LINES") .anim) = some "lines" := by decide
